@@ -180,8 +180,31 @@ func sto(arr, i, v Term) Term {
 	return app(arr.Sort, "store", arr, i, v)
 }
 
-func add(a, b Term) Term { return app(SInt, "+", a, b) }
-func sub(a, b Term) Term { return app(SInt, "-", a, b) }
+func add(a, b Term) Term {
+	ca, oka := constInt(a)
+	cb, okb := constInt(b)
+	switch {
+	case oka && okb:
+		return bigLit(new(big.Int).Add(ca, cb))
+	case oka && ca.Sign() == 0:
+		return b
+	case okb && cb.Sign() == 0:
+		return a
+	}
+	return app(SInt, "+", a, b)
+}
+
+func sub(a, b Term) Term {
+	ca, oka := constInt(a)
+	cb, okb := constInt(b)
+	switch {
+	case oka && okb:
+		return bigLit(new(big.Int).Sub(ca, cb))
+	case okb && cb.Sign() == 0:
+		return a
+	}
+	return app(SInt, "-", a, b)
+}
 func mul(a, b Term) Term { return app(SInt, "*", a, b) }
 func le(a, b Term) Term  { return app(SBool, "<=", a, b) }
 func lt(a, b Term) Term  { return app(SBool, "<", a, b) }
